@@ -19,8 +19,8 @@ import (
 	"verifharness/oracle/wecdsa"
 )
 
-// ecCurve pairs a library signing algorithm with the oracle's domain parameters.
-type ecCurve struct {
+// wecCurve pairs a library signing algorithm with the oracle's domain parameters.
+type wecCurve struct {
 	name string
 	algo crypto.SigningAlgorithm
 	c    *wecdsa.Curve
@@ -29,33 +29,33 @@ type ecCurve struct {
 	xLead, yLead []int64 // small scalars k whose point k·G has x (resp. y) < 2^248
 }
 
-var ecCurveList = []*ecCurve{
+var wecCurveList = []*wecCurve{
 	{name: "P256", algo: crypto.ECDSAP256, c: wecdsa.P256()},
 	{name: "secp256k1", algo: crypto.ECDSASecp256k1, c: wecdsa.Secp256k1()},
 }
 
-func ecDrawCurve(g *gen.G, label string) *ecCurve {
-	return ecCurveList[g.Pick(label, len(ecCurveList))]
+func wecDrawCurve(g *gen.G, label string) *wecCurve {
+	return wecCurveList[g.Pick(label, len(wecCurveList))]
 }
 
-func (cv *ecCurve) other() *ecCurve {
-	if cv == ecCurveList[0] {
-		return ecCurveList[1]
+func (cv *wecCurve) other() *wecCurve {
+	if cv == wecCurveList[0] {
+		return wecCurveList[1]
 	}
-	return ecCurveList[0]
+	return wecCurveList[0]
 }
 
-const ecTableBound = 4096
+const wecTableBound = 4096
 
-// smallTables walks k = 1, 2, 3 … ecTableBound (a fixed, deterministic, bounded
+// smallTables walks k = 1, 2, 3 … wecTableBound (a fixed, deterministic, bounded
 // search) and keeps the k for which a coordinate of k·G has a leading zero byte.
 // For such k the ECDSA value r = x mod n equals x and has a leading zero byte too.
-func (cv *ecCurve) smallTables() (xLead, yLead []int64) {
+func (cv *wecCurve) smallTables() (xLead, yLead []int64) {
 	cv.tabOnce.Do(func() {
 		lim := new(big.Int).Lsh(one, 248)
 		G := cv.c.G()
 		P := cv.c.G()
-		for k := int64(1); k <= ecTableBound; k++ {
+		for k := int64(1); k <= wecTableBound; k++ {
 			if P.X.Cmp(lim) < 0 {
 				cv.xLead = append(cv.xLead, k)
 			}
@@ -68,8 +68,8 @@ func (cv *ecCurve) smallTables() (xLead, yLead []int64) {
 	return cv.xLead, cv.yLead
 }
 
-// ecDrawScalar draws a private scalar in [1, n-1] from the structured pool.
-func ecDrawScalar(g *gen.G, label string, cv *ecCurve) (*big.Int, string) {
+// wecDrawScalar draws a private scalar in [1, n-1] from the structured pool.
+func wecDrawScalar(g *gen.G, label string, cv *wecCurve) (*big.Int, string) {
 	n := cv.c.N
 	switch g.Int(label+"Kind", 0, 10) {
 	case 0:
@@ -111,18 +111,20 @@ func ecDrawScalar(g *gen.G, label string, cv *ecCurve) (*big.Int, string) {
 	}
 }
 
-// ecKey is a library ECDSA key pair whose private scalar the harness knows.
-type ecKey struct {
-	cv  *ecCurve
+// wecKey is a library ECDSA key pair whose private scalar the harness knows.
+type wecKey struct {
+	cv  *wecCurve
 	sk  crypto.PrivateKey
 	pk  crypto.PublicKey
 	d   *big.Int
 	how string
 }
 
-func (k ecKey) String() string { return fmt.Sprintf("%s %s key d=%x", k.cv.name, k.how, scalarBytes(k.d)) }
+func (k wecKey) String() string {
+	return fmt.Sprintf("%s %s key d=%x", k.cv.name, k.how, scalarBytes(k.d))
+}
 
-func ecDecodeSK(g *gen.G, cv *ecCurve, d *big.Int) crypto.PrivateKey {
+func wecDecodeSK(g *gen.G, cv *wecCurve, d *big.Int) crypto.PrivateKey {
 	sk, err := crypto.DecodePrivateKey(cv.algo, scalarBytes(d))
 	if err != nil {
 		g.Fatalf("DecodePrivateKey(%s, %x) failed for a scalar in [1, n-1]: %v", cv.name, scalarBytes(d), err)
@@ -133,10 +135,10 @@ func ecDecodeSK(g *gen.G, cv *ecCurve, d *big.Int) crypto.PrivateKey {
 	return sk
 }
 
-// ecDrawKey draws a key: generated from a 32..64-byte seed (the scalar is then
+// wecDrawKey draws a key: generated from a 32..64-byte seed (the scalar is then
 // read back with Encode; the derivation itself is C12's subject) or decoded
 // from a pool scalar.
-func ecDrawKey(g *gen.G, label string, cv *ecCurve) ecKey {
+func wecDrawKey(g *gen.G, label string, cv *wecCurve) wecKey {
 	if g.Int(label+"Src", 0, 3) == 0 {
 		seed := g.Bytes(label+"Seed", 32, 64)
 		sk, err := crypto.GeneratePrivateKey(cv.algo, seed)
@@ -148,17 +150,17 @@ func ecDrawKey(g *gen.G, label string, cv *ecCurve) ecKey {
 		if len(enc) != 32 || d.Sign() == 0 || d.Cmp(cv.c.N) >= 0 {
 			g.Fatalf("GeneratePrivateKey(%s, seed %x): Encode() = %x is not a 32-byte scalar in [1, n-1]", cv.name, seed, enc)
 		}
-		return ecKey{cv: cv, sk: sk, pk: sk.PublicKey(), d: d, how: "generated"}
+		return wecKey{cv: cv, sk: sk, pk: sk.PublicKey(), d: d, how: "generated"}
 	}
-	d, how := ecDrawScalar(g, label, cv)
-	sk := ecDecodeSK(g, cv, d)
-	return ecKey{cv: cv, sk: sk, pk: sk.PublicKey(), d: d, how: "decoded:" + how}
+	d, how := wecDrawScalar(g, label, cv)
+	sk := wecDecodeSK(g, cv, d)
+	return wecKey{cv: cv, sk: sk, pk: sk.PublicKey(), d: d, how: "decoded:" + how}
 }
 
-// ecPub is the oracle's public key for the scalar d: the point d·G, its raw
+// wecPub is the oracle's public key for the scalar d: the point d·G, its raw
 // 64-byte encoding X‖Y (each coordinate left-padded to 32 bytes) and its SEC1
 // compressed encoding.
-func ecPub(cv *ecCurve, d *big.Int) (q wecdsa.Point, raw, compressed []byte) {
+func wecPub(cv *wecCurve, d *big.Int) (q wecdsa.Point, raw, compressed []byte) {
 	q = cv.c.ScalarBaseMult(d)
 	raw = make([]byte, 64)
 	q.X.FillBytes(raw[:32])
@@ -166,30 +168,30 @@ func ecPub(cv *ecCurve, d *big.Int) (q wecdsa.Point, raw, compressed []byte) {
 	return q, raw, cv.c.CompressPoint(q.X, q.Y)
 }
 
-// ecJoin writes r‖s, each as a 32-byte big-endian string (values < 2^256).
-func ecJoin(r, s *big.Int) []byte {
+// wecJoin writes r‖s, each as a 32-byte big-endian string (values < 2^256).
+func wecJoin(r, s *big.Int) []byte {
 	out := make([]byte, 64)
 	r.FillBytes(out[:32])
 	s.FillBytes(out[32:])
 	return out
 }
 
-func ecSplit(sig []byte) (r, s *big.Int) {
+func wecSplit(sig []byte) (r, s *big.Int) {
 	return new(big.Int).SetBytes(sig[:32]), new(big.Int).SetBytes(sig[32:64])
 }
 
-// ecFormatOK is the documented format: 64 bytes r‖s with 1 <= r, s <= n-1.
-func ecFormatOK(cv *ecCurve, sig []byte) bool {
+// wecFormatOK is the documented format: 64 bytes r‖s with 1 <= r, s <= n-1.
+func wecFormatOK(cv *wecCurve, sig []byte) bool {
 	if len(sig) != 64 {
 		return false
 	}
-	r, s := ecSplit(sig)
+	r, s := wecSplit(sig)
 	return r.Sign() > 0 && s.Sign() > 0 && r.Cmp(cv.c.N) < 0 && s.Cmp(cv.c.N) < 0
 }
 
-// ecHasher is a library hasher together with the oracle function computing the
+// wecHasher is a library hasher together with the oracle function computing the
 // same digest.
-type ecHasher struct {
+type wecHasher struct {
 	name string // class name
 	desc string // full description for messages
 	h    hash.Hasher
@@ -197,22 +199,22 @@ type ecHasher struct {
 	size int
 }
 
-// ecDrawHasher draws a hasher with an output of at least 32 bytes: the five
+// wecDrawHasher draws a hasher with an output of at least 32 bytes: the five
 // fixed-size ones, KMAC128 with a generated key / customizer / size 32..64, or
 // (one time in seven) a hasher with a scripted output of 32..80 bytes whose
 // leftmost 32 bytes come from a pool around 0, n and 2^256.
-func ecDrawHasher(g *gen.G, label string, cv *ecCurve) ecHasher {
+func wecDrawHasher(g *gen.G, label string, cv *wecCurve) wecHasher {
 	switch g.Int(label, 0, 6) {
 	case 0:
-		return ecHasher{"SHA2_256", "SHA2_256", hash.NewSHA2_256(), sha2.SHA256, 32}
+		return wecHasher{"SHA2_256", "SHA2_256", hash.NewSHA2_256(), sha2.SHA256, 32}
 	case 1:
-		return ecHasher{"SHA2_384", "SHA2_384", hash.NewSHA2_384(), sha2.SHA384, 48}
+		return wecHasher{"SHA2_384", "SHA2_384", hash.NewSHA2_384(), sha2.SHA384, 48}
 	case 2:
-		return ecHasher{"SHA3_256", "SHA3_256", hash.NewSHA3_256(), keccak.SHA3_256, 32}
+		return wecHasher{"SHA3_256", "SHA3_256", hash.NewSHA3_256(), keccak.SHA3_256, 32}
 	case 3:
-		return ecHasher{"SHA3_384", "SHA3_384", hash.NewSHA3_384(), keccak.SHA3_384, 48}
+		return wecHasher{"SHA3_384", "SHA3_384", hash.NewSHA3_384(), keccak.SHA3_384, 48}
 	case 4:
-		return ecHasher{"Keccak_256", "Keccak_256", hash.NewKeccak_256(), keccak.Keccak256, 32}
+		return wecHasher{"Keccak_256", "Keccak_256", hash.NewKeccak_256(), keccak.Keccak256, 32}
 	case 5:
 		key := g.Bytes(label+"KmacKey", 16, 48)
 		cust := g.Bytes(label+"KmacCust", 0, 16)
@@ -221,7 +223,7 @@ func ecDrawHasher(g *gen.G, label string, cv *ecCurve) ecHasher {
 		if err != nil {
 			g.Fatalf("NewKMAC_128(key %x, customizer %x, size %d) failed: %v", key, cust, size, err)
 		}
-		return ecHasher{"KMAC128", fmt.Sprintf("KMAC128(key %x, customizer %x, size %d)", key, cust, size), h,
+		return wecHasher{"KMAC128", fmt.Sprintf("KMAC128(key %x, customizer %x, size %d)", key, cust, size), h,
 			func(m []byte) []byte { return keccak.KMAC128(key, cust, m, size) }, size}
 	default:
 		size := g.Int(label+"ScriptSize", 32, 80)
@@ -245,7 +247,7 @@ func ecDrawHasher(g *gen.G, label string, cv *ecCurve) ecHasher {
 		out := make([]byte, size)
 		v.FillBytes(out[:32])
 		copy(out[32:], g.Expand(label+"ScriptTail", size-32))
-		return ecHasher{"scripted", fmt.Sprintf("scripted output %x", out), &scriptHasher{out: out, size: size},
+		return wecHasher{"scripted", fmt.Sprintf("scripted output %x", out), &scriptHasher{out: out, size: size},
 			func([]byte) []byte { return append([]byte{}, out...) }, size}
 	}
 }
